@@ -299,6 +299,9 @@ func (c *Ctx) checkTryResult(info *types.Info, fd *ast.FuncDecl, prefix string) 
 
 // checkTryCleanup: in the skip arm and in the abort loop, Close/Close/Deregister
 // are applied to the same index as the skip event / abort loop variable.
+// tryCleanupRule: rule id under which checkTryCleanup records (C28 reuses it as R28d).
+var tryCleanupRule = "R05e"
+
 func (c *Ctx) checkTryCleanup(info *types.Info, fd *ast.FuncDecl, prefix string) {
 	fn := prefix + fd.Name.Name
 	skipIf, abortIf := tryIfs(info, fd)
@@ -372,7 +375,7 @@ func (c *Ctx) checkTryCleanup(info *types.Info, fd *ast.FuncDecl, prefix string)
 				missing = append(missing, op)
 			}
 		}
-		c.Check(len(missing) == 0, "R05e", fn+":skip-arm", skipIf.Body.Pos(), "the skipped process procs[%s] gets Stdout.Close, Stderr.Close and GlobalFIDs.Deregister (missing: %v)", skipIdx, missing)
+		c.Check(len(missing) == 0, tryCleanupRule, fn+":skip-arm", skipIf.Body.Pos(), "the skipped process procs[%s] gets Stdout.Close, Stderr.Close and GlobalFIDs.Deregister (missing: %v)", skipIdx, missing)
 	}
 	if abortIf != nil {
 		// abort loop variable: the for statement inside
@@ -384,7 +387,7 @@ func (c *Ctx) checkTryCleanup(info *types.Info, fd *ast.FuncDecl, prefix string)
 			return true
 		})
 		if loop == nil {
-			c.Undecided("R05e", fn+":abort-arm", abortIf.Body.Pos(), "abort arm has no loop over the remaining processes")
+			c.Undecided(tryCleanupRule, fn+":abort-arm", abortIf.Body.Pos(), "abort arm has no loop over the remaining processes")
 		} else {
 			got, _ := scan(loop.Body)
 			idx := ""
@@ -417,7 +420,7 @@ func (c *Ctx) checkTryCleanup(info *types.Info, fd *ast.FuncDecl, prefix string)
 					}
 				}
 			}
-			c.Check(len(missing) == 0 && okRange && okInit, "R05e", fn+":abort-arm", loop.Pos(), "every remaining process (from the one after the failed command up to len) gets Stdout.Close, Stderr.Close and Deregister (missing: %v, covers-to-end=%v, starts-at-next=%v)", missing, okRange, okInit)
+			c.Check(len(missing) == 0 && okRange && okInit, tryCleanupRule, fn+":abort-arm", loop.Pos(), "every remaining process (from the one after the failed command up to len) gets Stdout.Close, Stderr.Close and Deregister (missing: %v, covers-to-end=%v, starts-at-next=%v)", missing, okRange, okInit)
 		}
 	}
 }
